@@ -269,6 +269,17 @@ func grammarFrames() []frameSpec {
 			b := cat([]byte{0xcb}, bytes.Repeat([]byte{2}, L-1))
 			add(fmt.Sprintf("raw-203-len%d", L), b, true, wantEcho(b), anyT)
 		}
+		// medium frames for sequences of several large requests on one connection (growing, equal, shrinking sizes)
+		for _, L := range []int{5000, 6000} {
+			L := L
+			data := bytes.Repeat([]byte{0xa5}, L-len(probe))
+			add(fmt.Sprintf("sign-k1-body%d", L), canon(func(a agent.ExtendedAgent) { a.Sign(k1, data) }), true, wantFirst(14), firstByte(5, 14))
+		}
+		add("lock-pass6000", canon(func(a agent.ExtendedAgent) { a.Lock(bytes.Repeat([]byte("p"), 6000)) }), true, wantFirst(6), firstByte(5, 6))
+		// a passphrase whose tail is itself two well-formed list frames (stale bytes replayed as requests would be answered)
+		add("unlock-wrong-pass7000-embedded-frames", canon(func(a agent.ExtendedAgent) {
+			a.Unlock(append(bytes.Repeat([]byte("q"), 6990), 0, 0, 0, 1, 11, 0, 0, 0, 1, 11))
+		}), true, wantFirst(5), firstByte(5, 6))
 		add("add-ed25519-comment1MiB", canon(func(a agent.ExtendedAgent) {
 			a.Add(agent.AddedKey{PrivateKey: fK3, Comment: string(bytes.Repeat([]byte("c"), 1<<20))})
 		}), true, wantFirst(6), firstByte(5, 6))
